@@ -524,4 +524,114 @@ theorem refines (s : Setup) (hwf : s.WF) (o : OptsT) (user : String) (bot : Opti
   simp [driveTraceN, hd]
 
 
+
+theorem loopSpec_obs (cat : String) : ∀ (rs : List IRail) (k : Nat) (t : String), ∀ x ∈ (loopSpec cat k rs t).1, ∃ i n t', x = Obs.railCall cat i n t'
+  | [], _, _, x, h => by simp [loopSpec] at h
+  | r :: rs, k, t, x, h => by
+    cases hk : r.kind with
+    | check a =>
+      by_cases ha : a t = true
+      · simp only [loopSpec, hk, ha, if_true, List.mem_cons] at h
+        rcases h with rfl | h
+        · exact ⟨_, _, _, rfl⟩
+        · exact loopSpec_obs cat rs (k + 1) t x h
+      · have ha' : a t = false := by simpa using ha
+        simp only [loopSpec, hk, ha', List.mem_singleton] at h
+        simp at h
+        exact ⟨_, _, _, h⟩
+    | rewrite f =>
+      simp only [loopSpec, hk, List.mem_cons] at h
+      rcases h with rfl | h
+      · exact ⟨_, _, _, rfl⟩
+      · exact loopSpec_obs cat rs (k + 1) (f t) x h
+
+/-- what can occur in the specification trace, by selection -/
+theorem specTrace_selected (s : Setup) (o : OptsT) (user : String) (bot : Option String) :
+    (∀ i n t, Obs.railCall "input" i n t ∈ specTrace s o user bot → selI o = true) ∧
+    (∀ i n t, Obs.railCall "output" i n t ∈ specTrace s o user bot → selO o = true) ∧
+    (Obs.llmCall ∈ specTrace s o user bot → selD o = true) ∧
+    (∀ c i n t, Obs.railCall c i n t ∈ specTrace s o user bot → c = "input" ∨ c = "output") := by
+  -- membership in the pieces
+  have hp : ∀ bm x, x ∈ pbmSpec s o bm → (∃ t, x = Obs.utter t) ∨ (selO o = true ∧ ∃ i n t', x = Obs.railCall "output" i n t') := by
+    intro bm x hx
+    unfold pbmSpec at hx
+    by_cases hrun : (!s.output.isEmpty && selO o) = true
+    · simp only [hrun, if_true, List.mem_append, List.mem_singleton] at hx
+      rcases hx with hx | hx
+      · right
+        have : selO o = true := by simp at hrun; exact hrun.2
+        exact ⟨this, loopSpec_obs "output" s.output 0 bm x hx⟩
+      · exact Or.inl ⟨_, hx⟩
+    · simp only [hrun, if_false, Bool.false_eq_true, List.mem_singleton] at hx
+      exact Or.inl ⟨_, hx⟩
+  have ha : ∀ um x, x ∈ afterSpec s o um bot → (∃ t, x = Obs.utter t) ∨ (selO o = true ∧ ∃ i n t', x = Obs.railCall "output" i n t') ∨ (x = Obs.llmCall ∧ selD o = true) := by
+    intro um x hx
+    unfold afterSpec at hx
+    cases hd : selD o
+    · simp only [hd, Bool.not_false, if_true] at hx
+      cases ho : selO o
+      · simp only [ho, Bool.not_false, if_true, List.mem_singleton] at hx
+        exact Or.inl ⟨_, hx⟩
+      · simp only [ho, Bool.not_true, Bool.false_eq_true, if_false] at hx
+        rcases hp _ x hx with h | h
+        · exact Or.inl h
+        · exact Or.inr (Or.inl ⟨rfl, h.2⟩)
+    · simp only [hd, Bool.not_true, Bool.false_eq_true, if_false, List.mem_cons] at hx
+      rcases hx with rfl | hx
+      · exact Or.inr (Or.inr ⟨rfl, rfl⟩)
+      · rcases hp _ x hx with h | h
+        · exact Or.inl h
+        · exact Or.inr (Or.inl h)
+  have hs : ∀ x, x ∈ specTrace s o user bot → (∃ t, x = Obs.utter t) ∨ (selO o = true ∧ ∃ i n t', x = Obs.railCall "output" i n t') ∨
+      (x = Obs.llmCall ∧ selD o = true) ∨ (selI o = true ∧ ∃ i n t', x = Obs.railCall "input" i n t') := by
+    intro x hx
+    unfold specTrace at hx
+    by_cases hrun : (!s.input.isEmpty && selI o) = true
+    · have hsi : selI o = true := by simp at hrun; exact hrun.2
+      simp only [hrun, if_true, List.mem_append] at hx
+      rcases hx with hx | hx
+      · exact Or.inr (Or.inr (Or.inr ⟨hsi, loopSpec_obs "input" s.input 0 user x hx⟩))
+      · cases hl : (loopSpec "input" 0 s.input user).2 with
+        | some um =>
+          rw [hl] at hx
+          rcases ha um x hx with h | h | h
+          · exact Or.inl h
+          · exact Or.inr (Or.inl h)
+          · exact Or.inr (Or.inr (Or.inl h))
+        | none =>
+          rw [hl] at hx
+          simp only [List.mem_singleton] at hx
+          exact Or.inl ⟨_, hx⟩
+    · simp only [hrun, if_false, Bool.false_eq_true] at hx
+      rcases ha user x hx with h | h | h
+      · exact Or.inl h
+      · exact Or.inr (Or.inl h)
+      · exact Or.inr (Or.inr (Or.inl h))
+  refine ⟨?_, ?_, ?_, ?_⟩
+  · intro i n t h
+    rcases hs _ h with ⟨_, e⟩ | ⟨_, _, _, _, e⟩ | ⟨e, _⟩ | ⟨h1, _⟩
+    · cases e
+    · simp at e
+    · cases e
+    · exact h1
+  · intro i n t h
+    rcases hs _ h with ⟨_, e⟩ | ⟨h1, _⟩ | ⟨e, _⟩ | ⟨_, _, _, _, e⟩
+    · cases e
+    · exact h1
+    · cases e
+    · simp at e
+  · intro h
+    rcases hs _ h with ⟨_, e⟩ | ⟨_, _, _, _, e⟩ | ⟨_, h1⟩ | ⟨_, _, _, _, e⟩
+    · cases e
+    · cases e
+    · exact h1
+    · cases e
+  · intro c i n t h
+    rcases hs _ h with ⟨_, e⟩ | ⟨_, _, _, _, e⟩ | ⟨e, _⟩ | ⟨_, _, _, _, e⟩
+    · cases e
+    · cases e; exact Or.inr rfl
+    · cases e
+    · cases e; exact Or.inl rfl
+
+
 end NemoVerif.RailsInterp
